@@ -280,6 +280,7 @@ type concResult struct {
 	merges      int64
 	mergeErrs   int64
 	finalBad    []string
+	finalReads  int64
 	orders      map[string]bool
 }
 
@@ -492,15 +493,76 @@ func runConc(c *CaseCtx, cc concCfg) *concResult {
 			res.overlaps++
 		}
 	}
-	// final contents must equal the model after some linearization: checked by replaying the committed
-	// transactions in sequence-number order per shard (the order the sequence key proves)
+	// final contents must equal the model after some linearization: one read-only transaction per shard reads
+	// everything after all workers have returned and is appended to the history as an ordinary operation, so the
+	// serializability checker itself decides whether the final state is the result of the serial order it found.
+	// The same reads are repeated after Close + Open (same options): what was committed under concurrency (and
+	// under concurrent Merge) must also be what a reopen shows.
+	nutsdb.VerifSetYieldHook(nil)
+	finalReads := func(di int, db *nutsdb.DB, client int) {
+		ds := cc.DBs[di].Mode == 0
+		for shard := 0; shard < cc.Shards; shard++ {
+			b := shardBucket(shard)
+			ops := []Op{{K: "Get", B: b, Key: []byte("k1")}, {K: "Get", B: b, Key: []byte("k2")}, {K: "Get", B: b, Key: []byte("seq")},
+				{K: "GetAll", B: b}, {K: "PrefixScan", B: b, Key: []byte("k"), I: 0, J: -1}}
+			if ds {
+				ops = append(ops, Op{K: "SMembers", B: b, Key: []byte("s")})
+				if !cc.KVSetsOnly {
+					ops = append(ops, Op{K: "LRange", B: b, Key: []byte("l"), I: 0, J: -1}, Op{K: "ZRangeByRank", B: b, I: 1, J: -1})
+				}
+			}
+			in := concIn{DB: di, Shard: shard, Writable: false, Ops: ops}
+			out := concOut{}
+			call := h.now()
+			var panicS string
+			func() {
+				defer func() {
+					if p := recover(); p != nil {
+						panicS = fmt.Sprint(p)
+					}
+				}()
+				db.View(func(tx *nutsdb.Tx) error {
+					for _, o := range ops {
+						out.Res = append(out.Res, execOp(tx, o))
+					}
+					return nil
+				})
+			}()
+			if panicS != "" {
+				res.panics = append(res.panics, "final read: "+panicS)
+				continue
+			}
+			h.add(porcupine.Operation{ClientId: client, Input: in, Call: call, Output: out, Return: h.now()})
+			res.finalReads++
+		}
+	}
 	for di, db := range dbs {
+		finalReads(di, db, cc.Goroutines)
+		var cerr error
+		func() {
+			defer func() {
+				if p := recover(); p != nil {
+					cerr = fmt.Errorf("PANIC %v", p)
+				}
+			}()
+			cerr = db.Close()
+		}()
+		if cerr != nil {
+			res.finalBad = append(res.finalBad, fmt.Sprintf("close-failed|Close of db%d after the workload failed: %v", di, cerr))
+			continue
+		}
+		db2, err := openNoPanic(cc.DBs[di].Options(c.Dir(fmt.Sprintf("db%d", di))))
+		if err != nil {
+			res.finalBad = append(res.finalBad, fmt.Sprintf("reopen-failed:%s|Open of db%d (%s) after the concurrent workload and a clean Close failed: %v", errClass(err.Error()), di, cc.DBs[di], err))
+			continue
+		}
+		finalReads(di, db2, cc.Goroutines+1)
 		func() {
 			defer func() { recover() }()
-			db.Close()
+			db2.Close()
 		}()
-		_ = di
 	}
+	res.hist = h.ops
 	return res
 }
 
